@@ -1,7 +1,8 @@
 """Model-client session scenarios against the real server (workload for C10, C14, C15, C16 ...)."""
 import random
+import struct
 
-from . import mclient, proto, scen
+from . import kernel, mclient, proto, scen
 from .scen import US
 
 QT = [proto.T_NULL, proto.T_PRIVATE, proto.T_TXT, proto.T_SRV, proto.T_MX, proto.T_CNAME, proto.T_A]
@@ -36,11 +37,26 @@ def _gen_session_cfg(rng, idx):
                         "raw": rng.random() < 0.12, "v6": rng.random() < 0.2, "nofrag": rng.random() < 0.12})
     return {"clients": clients, "nops": rng.randint(60, 160), "check_ip_off": rng.random() < 0.3,
             "ns_ip": rng.choice([None, None, "192.0.2.77"]), "wild": rng.random() < 0.25,
-            "rseed": rng.getrandbits(32)}
+            "rseed": rng.getrandbits(32),
+            # iodined -b: other people's queries are handed to a resolver on the same host and its replies are handed back
+            "bind": idx % 5 == 3}
 
 
 class Session:
     pass
+
+
+BIND_PORT = 5353
+
+
+class FwdResolver(kernel.Actor):
+    """The DNS server iodined -b hands other people's queries to: remembers what it was handed, answers when told to."""
+    def __init__(self, ip):
+        self.ip = ip
+        self.got = []        # (forwarding socket address, datagram)
+
+    def on_datagram(self, src, dst, data):
+        self.got.append((src, bytes(data)))
 
 
 def down_capacity(qtype, frag):
@@ -53,6 +69,8 @@ def down_capacity(qtype, frag):
 
 
 def run_session(tag, cfg, seed, ops_filter=None, redeliver=True, setup_only=False):
+    import copy
+    cfg = copy.deepcopy(cfg)         # (ops change the clients' settings as they go; the caller's parameters stay what was generated)
     rng = random.Random(cfg["rseed"] ^ seed)
     sim = scen.Sim(tag, seed)
     s = Session()
@@ -67,6 +85,11 @@ def run_session(tag, cfg, seed, ops_filter=None, redeliver=True, setup_only=Fals
         extra.append("-c")
     if cfg.get("ns_ip"):
         extra += ["-n", cfg["ns_ip"]]
+    s.fwd = None
+    if cfg.get("bind"):
+        extra += ["-b", str(BIND_PORT)]
+        s.fwd = FwdResolver("127.0.0.1")
+        k.add_actor("127.0.0.1", s.fwd)
     dom = cfg.get("domain") or scen.DOMAIN
     if cfg.get("wild"):
         # under a wildcard the clients use some label of their own choosing (1..12 characters)
@@ -113,9 +136,11 @@ def run_session(tag, cfg, seed, ops_filter=None, redeliver=True, setup_only=Fals
     if setup_only:
         s.ok = True
         return s
-    ops = ["ping"] * 6 + ["up"] * 3 + ["down"] * 5 + ["burst", "idle", "id0", "aux", "hs", "badip", "downsoon", "upsmall", "rawop", "refrag", "refrag", "dupsoon", "dupsoon", "c2c", "c2c", "reborn"]
+    ops = ["ping"] * 6 + ["up"] * 3 + ["down"] * 5 + ["burst", "idle", "id0", "aux", "hs", "badip", "downsoon", "upsmall", "rawop", "refrag", "refrag", "dupsoon", "dupsoon", "c2c", "c2c", "reborn", "lazyoff"]
     if cfg.get("sendfaults"):
         ops += ["sendfault"] * 3
+    if s.fwd is not None:
+        ops += ["fwd"] * 4
     if redeliver:
         ops += ["dup"] * 3
     if ops_filter:
@@ -224,6 +249,51 @@ def do_op(s, mc, op, rng):
                              src_ip=alt, swapcase=rng.random() < 0.3)
             k.run(k.now + rng.choice([10, 5000, 50000]))
         mc.drain()
+    elif op == "lazyoff":
+        # what the client does when lazy mode does not work through its relay: back to immediate mode while the server still
+        # holds a query, then ordinary traffic (a one-fragment packet first, or a ping)
+        if mc.lazy:
+            mc.query(mc.ping_labels())
+            k.run(k.now + rng.choice([1000, 30000]))
+            mc.option(b"i")
+            for _ in range(rng.randint(2, 4)):
+                if rng.random() < 0.6:
+                    f = mk_frame(s, mc, "up", rng, size=rng.choice([32, 40]))
+                    s.sent_up.append(f)
+                    mc.send_frame(f, wait_us=150000)
+                else:
+                    mc.ping(wait_us=rng.choice([30000, 200000]))
+            k.run(k.now + 700000)
+            mc.drain()
+            if rng.random() < 0.5:
+                mc.option(b"l")
+    elif op == "fwd":
+        # somebody else's query for a name that has nothing to do with the tunnel, then (usually) the resolver's reply to one of
+        # the queries it was handed - complete, header-only, twice, or under an id nobody used
+        fw = s.fwd
+        who = "10.77.0.%d" % rng.randint(1, 4)
+        qid = rng.choice([0, 0, 1, 2, 3, 0x1234, rng.randrange(65536)])
+        name = rng.choice([[b"www", b"example", b"org"], [b"mail", b"example", b"net"], [b"a", b"b"], [b"xn--q", b"example", b"com"]])
+        k.transmit((who, rng.choice([53, 1024, 40000 + rng.randrange(8)])), (scen.SERVER_IP, 53), proto.build_query(qid, name, rng.choice([1, 28, 15, 16, 255])))
+        k.run(k.now + 3000)
+        for _ in range(rng.choice([0, 1, 1, 2])):
+            if not fw.got:
+                break
+            j = rng.randrange(len(fw.got))
+            fsrc, fd = fw.got[j] if rng.random() < 0.2 else fw.got.pop(j)
+            try:
+                m = proto.parse_msg(fd)
+                body = proto.build_answer_raw(m.id, m.qd[0][0], m.qd[0][1], [(1, bytes(rng.getrandbits(8) for _ in range(4)))])
+            except (proto.ParseError, IndexError, ValueError):
+                continue
+            r = rng.random()
+            if r < 0.2:
+                body = body[:12]                     # header only (REFUSED / FORMERR answers need not echo the question)
+                body = body[:3] + bytes([0x85]) + bytes(8)
+            elif r < 0.3:
+                body = struct.pack(">H", rng.choice([0, 7, rng.randrange(65536)])) + body[2:]      # an id nobody used (or 0)
+            k.transmit(("127.0.0.1", BIND_PORT), fsrc, body)
+            k.run(k.now + 3000)
     elif op == "idle":
         k.run(k.now + rng.choice([100000, 1000000, 5000000]))
         mc.drain()
